@@ -6,6 +6,7 @@ import PybtexModel.Lemmas.CIMap
 
 namespace Pybtex.Interp
 open Pybtex.BstSem
+open Pybtex.Bst (Command Program)
 
 /-! ### values -/
 
@@ -764,5 +765,593 @@ theorem exec_frame (n : Nat) :
             · rename_i f2 s2 h2
               exact (pop_frame h1).trans ((pop_frame h2).trans (ihW _ _ _ _ h))
         all_goals exact absurd (by decide) hb
+
+/-! ### unfolding `runCommand` -/
+
+/-- the key `SORT` pairs a citation with (`none`: `sort.key$` holds a non-string) -/
+def sortPair (s : St) (c : Str) : Option (Str × Str) :=
+  match dget (frameOf s c) "sort.key$".toList with
+  | some v => (valToStr v).map fun k => (k, c)
+  | none => some ([], c)
+
+theorem runCommand_sort (fuel : Nat) (inp : Input) (c : Command) (s : St) (h : upper c.name = "SORT".toList) :
+    runCommand fuel inp c s =
+      match s.citations.mapM (sortPair s) with
+      | none => .error (.internal "sort.key$ is not a string")
+      | some l => .ok { s with citations := (sortByKey l).map (·.2) } := by
+  unfold runCommand
+  simp only [h]
+  rw [if_pos trivial]
+  rfl
+
+theorem runCommand_iterate (fuel : Nat) (inp : Input) (c : Command) (s : St) (t : BTok) (ts : List BTok) (f : Str) (o : VarObj)
+    (h : upper c.name = "ITERATE".toList) (hg : c.groups = [t :: ts]) (ht : tokName t = .ok f)
+    (ho : s.vars.getItem f = some o) :
+    runCommand fuel inp c s = iterate fuel o s.citations s := by
+  unfold runCommand
+  simp only [h, hg, ht, ho]
+  rfl
+
+theorem runCommand_reverse (fuel : Nat) (inp : Input) (c : Command) (s : St) (t : BTok) (ts : List BTok) (f : Str) (o : VarObj)
+    (h : upper c.name = "REVERSE".toList) (hg : c.groups = [t :: ts]) (ht : tokName t = .ok f)
+    (ho : s.vars.getItem f = some o) :
+    runCommand fuel inp c s = iterate fuel o s.citations.reverse s := by
+  unfold runCommand
+  simp only [h, hg, ht, ho]
+  rfl
+
+theorem runCommand_execute (fuel : Nat) (inp : Input) (c : Command) (s : St) (t : BTok) (ts : List BTok)
+    (h : upper c.name = "EXECUTE".toList) (hg : c.groups = [t :: ts]) :
+    runCommand fuel inp c s = execTok fuel t s := by
+  unfold runCommand
+  simp only [h, hg]
+  rfl
+
+theorem runCommand_function (fuel : Nat) (inp : Input) (c : Command) (s : St) (n : Str) (ts body : List BTok)
+    (h : upper c.name = "FUNCTION".toList) (hg : c.groups = [.name n :: ts, body]) :
+    runCommand fuel inp c s = addVariable s n (.func body) := by
+  unfold runCommand
+  simp only [h, hg, tokName]
+  rfl
+
+theorem runCommand_integers (fuel : Nat) (inp : Input) (c : Command) (s : St) (ids : List BTok)
+    (h : upper c.name = "INTEGERS".toList) (hg : c.groups = [ids]) :
+    runCommand fuel inp c s = overwrite (.gint 0) ids s := by
+  unfold runCommand
+  simp only [h, hg]
+  rfl
+
+theorem runCommand_strings (fuel : Nat) (inp : Input) (c : Command) (s : St) (ids : List BTok)
+    (h : upper c.name = "STRINGS".toList) (hg : c.groups = [ids]) :
+    runCommand fuel inp c s = overwrite (.gstr (.str [])) ids s := by
+  unfold runCommand
+  simp only [h, hg]
+  rfl
+
+theorem runCommand_macro (fuel : Nat) (inp : Input) (c : Command) (s : St) (n v : BTok) (ns vs : List BTok) (name value : Str)
+    (h : upper c.name = "MACRO".toList) (hg : c.groups = [n :: ns, v :: vs])
+    (hn : tokName n = .ok name) (hv : tokName v = .ok value) :
+    runCommand fuel inp c s = .ok { s with macros := dset s.macros name value } := by
+  unfold runCommand
+  simp only [h, hg, hn, hv]
+  rfl
+
+theorem runCommand_entry (fuel : Nat) (inp : Input) (c : Command) (s : St) (fields ints strings : List BTok)
+    (h : upper c.name = "ENTRY".toList) (hg : c.groups = [fields, ints, strings]) :
+    runCommand fuel inp c s =
+      match declare (fun n => .field n) fields s with
+      | .error e => .error e
+      | .ok s =>
+        match addVariable s "crossref".toList .crossref with
+        | .error e => .error e
+        | .ok s =>
+          match declare (fun n => .eint n) ints s with
+          | .error e => .error e
+          | .ok s => declare (fun n => .estr n) strings s := by
+  unfold runCommand
+  simp only [h, hg]
+  rfl
+
+/-! ### `ITERATE` / `REVERSE` -/
+
+theorem iterate_eq_fold (fuel : Nat) (o : VarObj) (db : BibData) (ks : List Str) (s : St)
+    (hdb : s.db = some db) (hks : ∀ k ∈ ks, db.entries.contains k = true) :
+    iterate fuel o ks s = foldEntries (execObj fuel o) ks s := by
+  induction ks generalizing s with
+  | nil => rfl
+  | cons k ks ih =>
+    have hk := hks k List.mem_cons_self
+    cases hx : execObj fuel o { s with cur := some k } with
+    | error e =>
+      have hx' := hx; simp only [hdb] at hx'
+      simp only [iterate, foldEntries, hdb, hk, hx', Bool.not_true, Bool.false_eq_true, if_false]
+    | ok s1 =>
+      have hx' := hx; simp only [hdb] at hx'
+      simp only [iterate, foldEntries, hdb, hk, hx', Bool.not_true, Bool.false_eq_true, if_false]
+      have := (exec_frame fuel).2.1 o _ _ hx
+      exact ih s1 (by rw [this.db]; exact hdb) (fun k' hk' => hks k' (List.mem_cons_of_mem _ hk'))
+
+/-- the checks `_iterate` makes on the way (`self.bib_data.entries[key]`) when they do not hold -/
+theorem iterate_no_db (fuel : Nat) (o : VarObj) (k : Str) (ks : List Str) (s : St) (hdb : s.db = none) :
+    iterate fuel o (k :: ks) s = .error (.internal "AttributeError: bib_data") := by
+  simp only [iterate, hdb]
+
+/-- the frame of a whole iteration: like `Frame`, except that the current entry moves and the
+entry variables of the listed entries may change -/
+theorem iterate_frame (fuel : Nat) (o : VarObj) (ks : List Str) (s s' : St) (h : iterate fuel o ks s = .ok s') :
+    s'.db = s.db ∧ s'.citations = s.citations ∧ s'.macros = s.macros ∧ s'.preamble = s.preamble ∧
+    VarsPersist s.vars s'.vars ∧ (∀ k, k ∉ ks → dget s'.entryVars k = dget s.entryVars k) ∧
+    (∃ evs : List OutEv, (s'.lines, s'.buffer) = evs.foldl emit (s.lines, s.buffer)) ∧
+    s.reports <+: s'.reports ∧ s.printed <+: s'.printed := by
+  induction ks generalizing s with
+  | nil =>
+    cases h
+    exact ⟨rfl, rfl, rfl, rfl, VarsPersist.refl _, fun _ _ => rfl, ⟨[], rfl⟩, List.prefix_refl _, List.prefix_refl _⟩
+  | cons k ks ih =>
+    simp only [iterate] at h
+    split at h
+    · cases h
+    · split at h
+      · cases h
+      · split at h
+        · cases h
+        · rename_i s1 h1
+          have fr := (exec_frame fuel).2.1 o _ _ h1
+          obtain ⟨a1, a2, a3, a4, a5, a6, a7, a8, a9⟩ := ih s1 h
+          refine ⟨a1.trans fr.db, a2.trans fr.citations, a3.trans fr.macros, a4.trans fr.preamble,
+            VarsPersist.trans fr.vars a5, ?_, ?_, fr.reports.trans a8, fr.printed.trans a9⟩
+          · intro k' hk'
+            rw [a6 k' (fun hm => hk' (List.mem_cons_of_mem _ hm))]
+            exact fr.entry k' (by
+              show some k ≠ some k'
+              intro he; cases he; exact hk' List.mem_cons_self)
+          · obtain ⟨e1, he1⟩ := fr.out
+            obtain ⟨e2, he2⟩ := a7
+            exact ⟨e1 ++ e2, by rw [he2, he1, List.foldl_append]⟩
+
+/-! ### `SORT` -/
+
+theorem mapM_sortPair (s : St) (cs : List Str) (l : List (Str × Str)) (h : cs.mapM (sortPair s) = some l) :
+    l = cs.map (fun c => (sortKey s c, c)) := by
+  induction cs generalizing l with
+  | nil => simp at h; subst h; rfl
+  | cons c cs ih =>
+    rw [List.mapM_cons] at h
+    cases hp : sortPair s c with
+    | none => rw [hp] at h; cases h
+    | some p =>
+      rw [hp] at h
+      cases hr : cs.mapM (sortPair s) with
+      | none => rw [hr] at h; cases h
+      | some r =>
+        rw [hr] at h
+        cases h
+        rw [ih r hr, List.map_cons]
+        congr 1
+        unfold sortPair at hp
+        unfold sortKey
+        split at hp
+        · rename_i v hv
+          rw [hv]
+          cases v <;> simp [valToStr] at hp <;> rw [← hp]
+        · rename_i hv
+          rw [hv]; cases hp; rfl
+
+theorem lexLt_iff (a b : Str) : LexLt a b ↔ strLt a b = true := (strLt_iff_lexLt a b).symm
+
+/-- what `SORT` does to the citation list -/
+theorem sort_spec (s : St) (l : List (Str × Str)) (h : s.citations.mapM (sortPair s) = some l) :
+    ((sortByKey l).map (·.2)).Perm s.citations ∧
+    SortedBy (sortKey s) ((sortByKey l).map (·.2)) ∧
+    StableWrt (sortKey s) s.citations ((sortByKey l).map (·.2)) := by
+  have hl := mapM_sortPair s _ l h
+  obtain ⟨h1, h2, h3⟩ := sortByKey_spec l
+  have hkey : ∀ p ∈ l, p.1 = sortKey s p.2 := by
+    intro p hp; rw [hl] at hp
+    obtain ⟨c, _, rfl⟩ := List.mem_map.1 hp; rfl
+  have hkey' : ∀ p ∈ sortByKey l, p.1 = sortKey s p.2 := fun p hp => hkey p (h2.subset hp)
+  have hmap : l.map (·.2) = s.citations := by
+    rw [hl, List.map_map]; exact List.map_id' _
+  refine ⟨?_, ?_, ?_⟩
+  · rw [← hmap]; exact h2.map _
+  · unfold SortedBy
+    rw [List.pairwise_map]
+    refine List.Pairwise.imp_of_mem ?_ h1
+    intro a b ha hb hab
+    rw [lexLt_iff, ← hkey' a ha, ← hkey' b hb, hab]
+    exact Bool.false_ne_true
+  · intro k
+    rw [← hmap, List.filter_map, List.filter_map]
+    have e1 : (sortByKey l).filter ((fun a => decide (sortKey s a = k)) ∘ fun x => x.2) = (sortByKey l).filter (fun p => p.1 = k) :=
+      List.filter_congr (fun p hp => by simp [Function.comp, hkey' p hp])
+    have e2 : l.filter ((fun a => decide (sortKey s a = k)) ∘ fun x => x.2) = l.filter (fun p => p.1 = k) :=
+      List.filter_congr (fun p hp => by simp [Function.comp, hkey p hp])
+    rw [e1, e2, h3 k]
+
+/-- `SORT` fails only when some `sort.key$` holds a non-string (which `:=` never stores) -/
+theorem mapM_sortPair_isSome (s : St) (cs : List Str)
+    (h : ∀ c ∈ cs, ∀ v, dget (frameOf s c) "sort.key$".toList = some v → isStr v = true) :
+    ∃ l, cs.mapM (sortPair s) = some l := by
+  induction cs with
+  | nil => exact ⟨[], rfl⟩
+  | cons c cs ih =>
+    obtain ⟨r, hr⟩ := ih (fun c' hc' => h c' (List.mem_cons_of_mem _ hc'))
+    have : ∃ p, sortPair s c = some p := by
+      unfold sortPair
+      split
+      · rename_i v hv
+        have := h c List.mem_cons_self v hv
+        cases v <;> first | exact ⟨_, rfl⟩ | cases this
+      · exact ⟨_, rfl⟩
+    obtain ⟨p, hp⟩ := this
+    exact ⟨p :: r, by rw [List.mapM_cons, hp, hr]; rfl⟩
+
+/-! ### declarations -/
+
+theorem contains_congr (d : CIDict VarObj) (k k' : Str) (h : lower k' = lower k) : d.contains k' = d.contains k := by
+  simp only [CIDict.contains, h]
+
+theorem contains_setItem_ne (d : CIDict VarObj) (k k' : Str) (v : VarObj) (h : lower k' ≠ lower k) :
+    (d.setItem k v).contains k' = d.contains k' := by
+  rw [contains_eq_isSome, contains_eq_isSome, getItem_setItem_ne d k k' v h]
+
+theorem contains_setItem_same (d : CIDict VarObj) (k : Str) (v : VarObj) : (d.setItem k v).contains k = true := by
+  rw [contains_eq_isSome, getItem_setItem_same]; rfl
+
+theorem Declares.nil (s : St) : Declares [] s s :=
+  ⟨rfl, (fun _ h => nomatch h), fun _ _ => rfl⟩
+
+/-- one `add_variable` -/
+theorem addVariable_ok (s : St) (n : Str) (v : VarObj) (h : s.vars.contains n = false) :
+    addVariable s n v = .ok { s with vars := s.vars.setItem n v } := by
+  simp only [addVariable, h, Bool.false_eq_true, if_false]
+
+theorem addVariable_dup (s : St) (n : Str) (v : VarObj) (h : s.vars.contains n = true) :
+    addVariable s n v = .error (.bibtex "variable already declared") := by
+  simp only [addVariable, h, if_true]
+
+theorem declares_add (s : St) (n : Str) (v : VarObj) : Declares [(n, v)] s { s with vars := s.vars.setItem n v } := by
+  refine ⟨rfl, ?_, ?_⟩
+  · intro p hp
+    rcases List.mem_singleton.1 hp with rfl
+    exact getItem_setItem_same _ _ _
+  · intro m hm
+    exact getItem_setItem_ne _ _ _ _ (fun e => hm (n, v) (List.mem_singleton.2 rfl) e.symm)
+
+/-- composing declarations; the later ones must not re-bind a name of the earlier ones -/
+theorem Declares.append {d1 d2 : List (Str × VarObj)} {s s1 s2 : St} (h1 : Declares d1 s s1) (h2 : Declares d2 s1 s2)
+    (hd : ∀ p ∈ d1, ∀ q ∈ d2, lower q.1 ≠ lower p.1) : Declares (d1 ++ d2) s s2 := by
+  refine ⟨?_, ?_, ?_⟩
+  · rw [h2.frame]; rw [h1.frame]
+  · intro p hp
+    rcases List.mem_append.1 hp with hp | hp
+    · rw [h2.others p.1 (fun q hq => hd p hp q hq)]; exact h1.declared p hp
+    · exact h2.declared p hp
+  · intro n hn
+    rw [h2.others n (fun q hq => hn q (List.mem_append_right _ hq)),
+        h1.others n (fun q hq => hn q (List.mem_append_left _ hq))]
+
+theorem declare_spec (mk : Str → VarObj) (ns : List Str) (s : St) :
+    (Fresh ns s → ∃ s', declare mk (ns.map Bst.Tok.name) s = .ok s' ∧ Declares (ns.map fun n => (n, mk n)) s s' ∧
+        ∀ m, s'.vars.contains m = (s.vars.contains m || ns.any fun n => lower n == lower m)) ∧
+    (¬ Fresh ns s → declare mk (ns.map Bst.Tok.name) s = .error (.bibtex "variable already declared")) := by
+  induction ns generalizing s with
+  | nil =>
+    refine ⟨fun _ => ⟨s, rfl, Declares.nil s, fun m => by simp⟩, fun h => absurd ⟨(fun _ hn => nomatch hn), List.Pairwise.nil⟩ h⟩
+  | cons n ns ih =>
+    constructor
+    · rintro ⟨hf, hp⟩
+      have hn : s.vars.contains n = false := hf n List.mem_cons_self
+      have hp' := List.pairwise_cons.1 hp
+      let s1 : St := { s with vars := s.vars.setItem n (mk n) }
+      have hfresh1 : Fresh ns s1 := by
+        refine ⟨?_, hp'.2⟩
+        intro m hm
+        show (s.vars.setItem n (mk n)).contains m = false
+        rw [contains_setItem_ne _ _ _ _ (fun e => hp'.1 m hm e.symm)]
+        exact hf m (List.mem_cons_of_mem _ hm)
+      obtain ⟨s', hs', hd, hc⟩ := (ih s1).1 hfresh1
+      refine ⟨s', ?_, ?_, ?_⟩
+      · simp only [List.map_cons, declare, tokName, addVariable_ok s n (mk n) hn]
+        exact hs'
+      · have := Declares.append (declares_add s n (mk n)) hd (by
+          intro p hp q hq
+          rcases List.mem_singleton.1 hp with rfl
+          obtain ⟨m, hm, rfl⟩ := List.mem_map.1 hq
+          exact fun e => hp'.1 m hm e.symm)
+        simpa using this
+      · intro m
+        rw [hc m]
+        show ((s.vars.setItem n (mk n)).contains m || _) = _
+        by_cases hm : lower m = lower n
+        · rw [contains_congr _ n m hm, contains_setItem_same]
+          simp [hm]
+        · rw [contains_setItem_ne _ _ _ _ hm]
+          have : (lower n == lower m) = false := by simp; exact fun e => hm e.symm
+          simp [List.any_cons, this]
+    · intro hnf
+      simp only [List.map_cons, declare, tokName]
+      by_cases hn : s.vars.contains n = true
+      · rw [addVariable_dup s n (mk n) hn]
+      · have hn' : s.vars.contains n = false := by simpa using hn
+        rw [addVariable_ok s n (mk n) hn']
+        simp only
+        apply (ih _).2
+        rintro ⟨hf, hp⟩
+        apply hnf
+        refine ⟨?_, List.pairwise_cons.2 ⟨?_, hp⟩⟩
+        · intro m hm
+          rcases List.mem_cons.1 hm with rfl | hm
+          · exact hn'
+          · have := hf m hm
+            by_cases hmn : lower m = lower n
+            · rw [show ({ s with vars := s.vars.setItem n (mk n) } : St).vars.contains m = true from by
+                show (s.vars.setItem n (mk n)).contains m = true
+                rw [contains_congr _ n m hmn, contains_setItem_same]] at this
+              cases this
+            · rw [show ({ s with vars := s.vars.setItem n (mk n) } : St).vars.contains m = s.vars.contains m from
+                contains_setItem_ne _ _ _ _ hmn] at this
+              exact this
+        · intro m hm e
+          have := hf m hm
+          rw [show ({ s with vars := s.vars.setItem n (mk n) } : St).vars.contains m = true from by
+            show (s.vars.setItem n (mk n)).contains m = true
+            rw [contains_congr _ n m e.symm, contains_setItem_same]] at this
+          cases this
+
+theorem overwrite_spec (v : VarObj) (ns : List Str) (s : St) :
+    ∃ s', overwrite v (ns.map Bst.Tok.name) s = .ok s' ∧ Declares (ns.map fun n => (n, v)) s s' := by
+  induction ns generalizing s with
+  | nil => exact ⟨s, rfl, Declares.nil s⟩
+  | cons n ns ih =>
+    obtain ⟨s', hs', hd⟩ := ih { s with vars := s.vars.setItem n v }
+    refine ⟨s', by simp only [List.map_cons, overwrite, tokName]; exact hs', ?_⟩
+    refine ⟨?_, ?_, ?_⟩
+    · rw [hd.frame]
+    · intro p hp
+      rcases List.mem_cons.1 hp with rfl | hp
+      · by_cases hin : ∃ q ∈ ns.map (fun n => (n, v)), lower q.1 = lower n
+        · obtain ⟨q, hq, hql⟩ := hin
+          rw [getItem_congr _ q.1 n hql.symm, hd.declared q hq]
+          obtain ⟨m, _, rfl⟩ := List.mem_map.1 hq; rfl
+        · rw [hd.others n (fun q hq e => hin ⟨q, hq, e⟩)]
+          exact getItem_setItem_same _ _ _
+      · exact hd.declared p hp
+    · intro m hm
+      rw [hd.others m (fun q hq => hm q (List.mem_cons_of_mem _ hq))]
+      exact getItem_setItem_ne _ _ _ _ (fun e => hm (n, v) List.mem_cons_self e.symm)
+
+/-! ### output -/
+
+theorem render_spec (evs : List OutEv) (ls buf : List Str) :
+    (evs.foldl emit (ls, buf)).1.flatten = ls.flatten ++ render buf.flatten evs := by
+  induction evs generalizing ls buf with
+  | nil => simp [render]
+  | cons e evs ih =>
+    cases e with
+    | write x =>
+      simp only [List.foldl_cons, emit, render]
+      rw [ih]; simp
+    | newline =>
+      simp only [List.foldl_cons, emit, render]
+      rw [ih]; simp
+
+/-! ### `READ` -/
+
+theorem removeMissing_contains (db : BibData) (l : List Str) : ∀ k ∈ (db.removeMissing l).1, db.entries.contains k = true := by
+  induction l with
+  | nil => intro k hk; cases hk
+  | cons c r ih =>
+    intro k hk
+    simp only [BibData.removeMissing] at hk
+    split at hk
+    · rename_i hc
+      rcases List.mem_cons.1 hk with rfl | hk
+      · exact hc
+      · exact ih k hk
+    · exact ih k hk
+
+theorem runCommand_read (fuel : Nat) (inp : Input) (c : Command) (s s' : St) (h : upper c.name = "READ".toList)
+    (hr : runCommand fuel inp c s = .ok s') :
+    (∃ db, s'.db = some db ∧ ∀ k ∈ s'.citations, db.entries.contains k = true) ∧
+    s'.vars = s.vars ∧ s'.macros = s.macros ∧ s'.entryVars = s.entryVars ∧ s'.stack = s.stack ∧
+    s'.lines = s.lines ∧ s'.buffer = s.buffer ∧ s'.cur = s.cur ∧ s'.printed = s.printed ∧ s.reports <+: s'.reports := by
+  unfold runCommand at hr
+  simp only [h] at hr
+  rw [if_pos trivial] at hr
+  cases hr
+  refine ⟨⟨_, rfl, removeMissing_contains _ _⟩, rfl, rfl, rfl, rfl, rfl, rfl, rfl, rfl, ?_⟩
+  simp only [List.append_assoc]
+  exact List.prefix_append _ _
+
+/-! ### what a command may change -/
+
+theorem addVariable_eq {s s' : St} {n : Str} {v : VarObj} (h : addVariable s n v = .ok s') : s' = { s with vars := s'.vars } := by
+  unfold addVariable at h
+  split at h
+  · cases h
+  · cases h; rfl
+
+theorem declare_eq (mk : Str → VarObj) (ts : List BTok) (s s' : St) (h : declare mk ts s = .ok s') :
+    s' = { s with vars := s'.vars } := by
+  induction ts generalizing s with
+  | nil => cases h; rfl
+  | cons t ts ih =>
+    simp only [declare] at h
+    split at h
+    · cases h
+    · split at h
+      · cases h
+      · rename_i s1 h1
+        rw [ih s1 h, addVariable_eq h1]
+
+theorem overwrite_eq (v : VarObj) (ts : List BTok) (s s' : St) (h : overwrite v ts s = .ok s') :
+    s' = { s with vars := s'.vars } := by
+  induction ts generalizing s with
+  | nil => cases h; rfl
+  | cons t ts ih =>
+    simp only [overwrite] at h
+    split at h
+    · cases h
+    · rw [ih _ h]
+
+theorem _root_.Pybtex.BstSem.CmdFrame.of_vars {c : Command} {s s' : St} (h : s' = { s with vars := s'.vars }) : CmdFrame c s s' := by
+  rw [h]
+  exact ⟨⟨[], rfl⟩, List.prefix_refl _, List.prefix_refl _, fun _ => rfl, fun _ => List.Perm.refl _⟩
+
+theorem _root_.Pybtex.BstSem.CmdFrame.of_frame {c : Command} {s s' : St} (h : Frame s s') : CmdFrame c s s' :=
+  ⟨h.out, h.reports, h.printed, fun _ => h.db, fun _ => by rw [h.citations]⟩
+
+theorem _root_.Pybtex.BstSem.CmdFrame.of_iterate {c : Command} {fuel : Nat} {o : VarObj} {ks : List Str} {s s' : St}
+    (h : iterate fuel o ks s = .ok s') : CmdFrame c s s' := by
+  obtain ⟨a1, a2, _, _, _, _, a7, a8, a9⟩ := iterate_frame fuel o ks s s' h
+  exact ⟨a7, a8, a9, fun _ => a1, fun _ => by rw [a2]⟩
+
+theorem runCommand_frame (fuel : Nat) (inp : Input) (c : Command) (s s' : St) (h : runCommand fuel inp c s = .ok s') :
+    CmdFrame c s s' := by
+  unfold runCommand at h
+  simp only at h
+  split at h
+  · -- ENTRY
+    split at h
+    · split at h
+      · cases h
+      · rename_i s1 h1
+        split at h
+        · cases h
+        · rename_i s2 h2
+          split at h
+          · cases h
+          · rename_i s3 h3
+            refine CmdFrame.of_vars ?_
+            rw [declare_eq _ _ _ _ h, declare_eq _ _ _ _ h3, addVariable_eq h2, declare_eq _ _ _ _ h1]
+    · cases h
+  · split at h
+    · -- EXECUTE
+      split at h
+      · exact CmdFrame.of_frame ((exec_frame fuel).2.2.1 _ _ _ h)
+      · cases h
+    · split at h
+      · -- FUNCTION
+        split at h
+        · split at h
+          · cases h
+          · exact CmdFrame.of_vars (addVariable_eq h)
+        · cases h
+      · split at h
+        · -- INTEGERS
+          split at h
+          · exact CmdFrame.of_vars (overwrite_eq _ _ _ _ h)
+          · cases h
+        · split at h
+          · -- STRINGS
+            split at h
+            · exact CmdFrame.of_vars (overwrite_eq _ _ _ _ h)
+            · cases h
+          · split at h
+            · -- MACRO
+              split at h
+              · split at h
+                · cases h
+                  exact ⟨⟨[], rfl⟩, List.prefix_refl _, List.prefix_refl _, fun _ => rfl, fun _ => List.Perm.refl _⟩
+                · cases h
+              · cases h
+            · split at h
+              · -- READ
+                rename_i hread
+                cases h
+                refine ⟨⟨[], rfl⟩, ?_, List.prefix_refl _, fun hn => absurd hread hn, fun hn => absurd hread hn⟩
+                simp only [List.append_assoc]
+                exact List.prefix_append _ _
+              · split at h
+                · -- ITERATE / REVERSE
+                  split at h
+                  · split at h
+                    · cases h
+                    · split at h
+                      · cases h
+                      · exact CmdFrame.of_iterate h
+                  · cases h
+                · split at h
+                  · -- SORT
+                    split at h
+                    · cases h
+                    · rename_i l hl
+                      cases h
+                      exact ⟨⟨[], rfl⟩, List.prefix_refl _, List.prefix_refl _, fun _ => rfl,
+                        fun _ => (sort_spec s l hl).1⟩
+                  · cases h
+
+theorem runProgram_frame (fuel : Nat) (inp : Input) (prog : Program) (s s' : St) (h : runProgram fuel inp prog s = .ok s') :
+    (∃ evs : List OutEv, (s'.lines, s'.buffer) = evs.foldl emit (s.lines, s.buffer)) ∧
+    s.reports <+: s'.reports ∧ s.printed <+: s'.printed := by
+  induction prog generalizing s with
+  | nil => cases h; exact ⟨⟨[], rfl⟩, List.prefix_refl _, List.prefix_refl _⟩
+  | cons c cs ih =>
+    simp only [runProgram] at h
+    split at h
+    · cases h
+    · rename_i s1 h1
+      have f1 := runCommand_frame fuel inp c s s1 h1
+      obtain ⟨⟨e2, he2⟩, r2, p2⟩ := ih s1 h
+      obtain ⟨e1, he1⟩ := f1.out
+      exact ⟨⟨e1 ++ e2, by rw [he2, he1, List.foldl_append]⟩, f1.reports.trans r2, f1.printed.trans p2⟩
+
+theorem ready_of_read (fuel : Nat) (inp : Input) (c : Command) (s s' : St) (h : upper c.name = "READ".toList)
+    (hr : runCommand fuel inp c s = .ok s') : Ready s' := (runCommand_read fuel inp c s s' h hr).1
+
+theorem ready_preserved (fuel : Nat) (inp : Input) (c : Command) (s s' : St) (hs : Ready s)
+    (hr : runCommand fuel inp c s = .ok s') : Ready s' := by
+  by_cases h : upper c.name = "READ".toList
+  · exact ready_of_read fuel inp c s s' h hr
+  · obtain ⟨db, hdb, hc⟩ := hs
+    have f := runCommand_frame fuel inp c s s' hr
+    exact ⟨db, by rw [f.db h]; exact hdb, fun k hk => hc k ((f.citations h).subset hk)⟩
+
+/-! ### only `write$` and `newline$` touch the output -/
+
+def SameOut (s s' : St) : Prop := s'.lines = s.lines ∧ s'.buffer = s.buffer
+
+theorem SameOut.trans {a b c : St} (h1 : SameOut a b) (h2 : SameOut b c) : SameOut a c :=
+  ⟨h2.1.trans h1.1, h2.2.trans h1.2⟩
+
+theorem pop_sameOut {s s1 : St} {v : Val} (h : pop s = .ok (v, s1)) : SameOut s s1 := by
+  rw [(pop_eq h).1]; exact ⟨rfl, rfl⟩
+
+theorem popInt_sameOut {s s1 : St} {n : Int} (h : popInt s = .ok (n, s1)) : SameOut s s1 := by
+  unfold popInt at h
+  split at h
+  · cases h
+  · rename_i hp; cases h; exact pop_sameOut hp
+  · cases h
+
+theorem popStr_sameOut {s s1 : St} {x : Str} (h : popStr s = .ok (x, s1)) : SameOut s s1 := by
+  unfold popStr at h
+  split at h
+  · cases h
+  · rename_i hp; cases h; exact pop_sameOut hp
+  · rename_i hp; cases h; exact pop_sameOut hp
+  · cases h
+
+macro "out_chain" : tactic => `(tactic| repeat (first
+  | refine SameOut.trans (pop_sameOut (by assumption)) ?_
+  | refine SameOut.trans (popInt_sameOut (by assumption)) ?_
+  | refine SameOut.trans (popStr_sameOut (by assumption)) ?_))
+
+theorem prim_sameOut (f : Nat) (b : Builtin) (s s' : St)
+    (hb : b ≠ .callType ∧ b ≠ .if_ ∧ b ≠ .while_ ∧ b ≠ .write ∧ b ≠ .newline)
+    (h : runBuiltin (f+1) b s = .ok s') : SameOut s s' := by
+  cases b
+  case callType => exact absurd rfl hb.1
+  case if_ => exact absurd rfl hb.2.1
+  case while_ => exact absurd rfl hb.2.2.1
+  case write => exact absurd rfl hb.2.2.2.1
+  case newline => exact absurd rfl hb.2.2.2.2
+  all_goals
+    simp only [runBuiltin] at h
+    repeat' (split at h)
+    all_goals first
+      | (cases h; done)
+      | (cases h; out_chain; exact ⟨rfl, rfl⟩)
 
 end Pybtex.Interp
